@@ -1,4 +1,5 @@
 import BsVerif.Lemmas.ValueTree
+import BsVerif.Lemmas.ValueGlue
 /-!
 # C06 — the structural theorem (second Props module: it uses the per-node lemmas of Props/C06)
 
@@ -53,5 +54,57 @@ example : parseInner exC2 3 (some ⟨[0x34, 0x12, 7, 9], some 1000⟩) 4 = some 
       match j, hj with
       | 0, _ => exact ⟨.u8, 7, by decide, rfl, by decide, rfl, rfl⟩
       | 1, _ => exact ⟨.u8, 9, by decide, rfl, by decide, rfl, rfl⟩) _
+
+/-! ## `Vec` and `VecDeque` end to end (header fields as found by the breadth-first lookup are hypotheses) -/
+
+/-- **C06_vec_end_to_end**: `len = n ≤ LEN_GUARD`, buffer = concatenation of the `n` element images, element decoder shows
+    `items[j]` on image `j` ⇒ the `Vec` is shown as exactly `items`, in order (and `cap` as the guarded capacity). -/
+theorem C06_vec_end_to_end (c : Ctx) (rec : Rec) (sv : Val) (id : Nat) (tps : List (String × Option Nat))
+    (inner el n cap p : Nat) (blocks : List Bytes) (items : List Val)
+    (hT : lookupTParam tps "T" = some inner)
+    (hlen : assumeScalarNumber sv "len" = some (n : Int)) (hn : (n : Int) ≤ LEN_GUARD)
+    (hcap : extractCapacity c.ver sv = some cap)
+    (hp : assumePointer sv "pointer" = some p)
+    (hel : c.size inner = some el) (hel0 : 0 < el)
+    (hb : blocks.length = n) (hbl : ∀ b ∈ blocks, b.length = el)
+    (hrd : c.rd p (n * el) = some blocks.flatten)
+    (hil : items.length = blocks.length)
+    (hitems : ∀ j (h : j < blocks.length) (h' : j < items.length) (a : Option Nat), rec (some ⟨blocks[j], a⟩) inner = some items[j]) :
+    specialize c rec .vec sv id tps =
+      some (.specVec false sv (vecStructure c sv.tyName inner items (guardCap cap).toNat tps)) :=
+  vec_end_to_end c rec sv id tps inner el n cap p blocks items hT hlen hn hcap hp hel hel0 hb hbl hrd hil hitems
+
+/-- **C06_vecdeque_end_to_end** (capacity within the guard): the deque is shown as exactly the logical sequence: item `i`
+    is the element decoder's result on the image in slot `(head + i) % cap` — for every ring position, wrapped or not. -/
+theorem C06_vecdeque_end_to_end (c : Ctx) (rec : Rec) (sv : Val) (id : Nat) (tps : List (String × Option Nat))
+    (inner el n cap head p : Nat) (buf : Bytes) (items : List Val)
+    (hT : lookupTParam tps "T" = some inner)
+    (hlen : assumeScalarNumber sv "len" = some (n : Int)) (hn : (n : Int) ≤ LEN_GUARD)
+    (hel : c.size inner = some el) (hel0 : 0 < el)
+    (hcap : extractCapacity c.ver sv = some cap) (hcg : CapWithinGuard cap) (hc0 : 0 < cap) (hnc : n ≤ cap)
+    (hhead : assumeScalarNumber sv "head" = some (head : Int))
+    (hp : assumePointer sv "pointer" = some p)
+    (hrd : c.rd p (cap * el) = some buf) (hbuf : buf.length = cap * el)
+    (hil : items.length = n)
+    (hitems : ∀ i (h : i < n) (h' : i < items.length),
+      rec (some ⟨(buf.drop (((head + i) % cap) * el)).take el, some (p + ((head + i) % cap) * el)⟩) inner = some items[i]) :
+    specialize c rec .vecdeque sv id tps =
+      some (.specVec true sv (vecStructure c sv.tyName inner items cap tps)) :=
+  deque_end_to_end c rec sv id tps inner el n cap head p buf items hT hlen hn hel hel0 hcap hcg hc0 hnc hhead hp hrd hbuf hil hitems
+
+/-- tests (compiled evaluation, not theorems): the header hypotheses are satisfiable — a `VecDeque`-shaped structure value
+    whose fields the breadth-first lookup finds -/
+def exDeque : Val := .struct "VecDeque<u8>" [some "head", some "len", some "buf"]
+  [usizeScalar 3, usizeScalar 2,
+   .struct "RawVec" [some "ptr", some "cap"]
+     [.struct "Unique" [some "pointer"] [.ptr "*const u8" (some 1000) none] [],
+      .struct "Cap" [some "__0"] [usizeScalar 4] []] []] [("T", some 2)]
+#guard assumeScalarNumber exDeque "len" == some 2
+#guard assumeScalarNumber exDeque "head" == some 3
+#guard assumePointer exDeque "pointer" == some 1000
+#guard extractCapacity 89 exDeque == some 4
+#guard (specialize ⟨exG2, fun a n => if a = 1000 ∧ n = 4 then some [10, 11, 12, 13] else none, 89⟩
+          (parseInner ⟨exG2, fun _ _ => none, 89⟩ 2) .vecdeque exDeque 0 [("T", some 2)]).map render
+        == some "Xdeq<VecDeque<u8>>T<VecDeque<u8>>{buf:A<[unknown]>[0:S<unknown>13,1:S<unknown>10],cap:S<usize>4}"
 
 end BsVerif.Value
